@@ -270,6 +270,8 @@ func runC20(c *Ctx) {
 		case c20Get, c20Put, c20OtherMethod:
 			method := "GET"
 			dup := false
+			trailing := false
+			firstDoc := -1
 			var body string
 			target := "/log/level"
 			ctype := ""
@@ -296,6 +298,14 @@ func runC20(c *Ctx) {
 						js2, _ := json.Marshal(op.text)
 						body = fmt.Sprintf(`{"level":%s,"level":%s}`, js1, js2)
 						dup = true
+					}
+					if op.chunk%7 == 3 && !dup {
+						// more than one read's worth of body: a first document,
+						// then padding and further documents the handler must ignore
+						tail := strings.Repeat(`{"level":"`+op.text2+`"} `, 40)
+						firstDoc = len(body)
+						body = body + strings.Repeat(" ", 500) + tail
+						trailing = true
 					}
 					switch op.text {
 					case "null":
@@ -346,6 +356,11 @@ func runC20(c *Ctx) {
 			// instead of the final EOF (the JSON value is complete, the form is not)
 			truncated := fr.at >= 0 && fr.at < len(body)
 			mayReject := truncated || (fr.at >= 0 && op.fault == 1 && fr.at == len(body))
+			if trailing && fr.at >= firstDoc {
+				// the first document arrived whole; what happens to the ignored
+				// rest of the body is of no consequence
+				truncated = false
+			}
 			switch {
 			case status == 200:
 				if jerr != nil || resp.Level == nil {
@@ -446,7 +461,7 @@ func runC20(c *Ctx) {
 				}
 				// "must be accepted" is demanded only of plainly well-formed requests:
 				// the exact form content type, or JSON declared as JSON (or undeclared)
-				plain := op.form || ctype == "application/json" || ctype == ""
+				plain := (op.form || ctype == "application/json" || ctype == "") && !trailing
 				if op.kind == c20Put && !mayReject && !dup && plain {
 					kind, _ := c20classify(op.text)
 					jsonOdd := !op.form && (op.text == "null" || op.text == "{}" || op.text == "1" || op.text == "true")
